@@ -201,7 +201,7 @@ func newSig(k kref, incep, exp time.Time) *dns.RRSIG {
 		TypeCovered: dns.TypeDNSKEY,
 		Algorithm:   getKey(k.id).alg,
 		Labels:      0,
-		OrigTtl:     3600,
+		OrigTtl:     servedTTL,
 		Expiration:  uint32(exp.Unix()),
 		Inception:   uint32(incep.Unix()),
 		KeyTag:      k.tag,
@@ -284,7 +284,9 @@ func parseTimed(s string) []timedSig {
 func timedRRSIGs(fetch []kref, timed []timedSig) []dns.RR {
 	var set, out []dns.RR
 	for _, k := range fetch {
-		set = append(set, k.rr())
+		rr := k.rr()
+		rr.Hdr.Ttl = servedTTL
+		set = append(set, rr)
 	}
 	if len(set) == 0 {
 		return nil
@@ -312,10 +314,16 @@ func buildAnswer(fetch, signers []kref, bad []badSig, extras ...extra) []dns.RR 
 	return out
 }
 
+// servedTTL is the TTL of the root DNSKEY RRset (and the OrigTtl of its RRSIGs) in the answers
+// built next; the tracked / configured records carry 3600. Nothing may depend on it.
+var servedTTL uint32 = 3600
+
 func buildRootSet(fetch, signers []kref, bad []badSig) []dns.RR {
 	var set []dns.RR
 	for _, k := range fetch {
-		set = append(set, k.rr())
+		rr := k.rr()
+		rr.Hdr.Ttl = servedTTL
+		set = append(set, rr)
 	}
 	out := append([]dns.RR(nil), set...)
 	if len(set) == 0 {
